@@ -224,6 +224,7 @@ fn width_class(bits: usize) -> &'static str {
         8 => "w8",
         16 | 24 | 32 => "w16-32",
         40..=64 => "w40-64",
+        65..=128 => "w72-128",
         _ => "w>64",
     }
 }
@@ -1043,7 +1044,7 @@ pub fn execute(script: &Script) -> Outcome {
 
 // ---------------------------------------------------------------- generation
 
-const WIDTHS: &[usize] = &[8, 16, 24, 32, 40, 64, 72, 128, 256];
+const WIDTHS: &[usize] = &[8, 16, 24, 32, 40, 48, 56, 64, 72, 96, 128, 256, 512];
 
 fn gen_value(rng: &mut Rng, bits: usize, expression: bool, names: &[(String, usize)]) -> ExprSpec {
     let constant = |rng: &mut Rng| {
@@ -1110,7 +1111,7 @@ pub fn generate(run_seed: u64, index: u64) -> Script {
     }
 
     // zones
-    let candidates: [u64; 6] = [0x3e8, 0x7e8, 0x10, 0x1_0000_03e8, 0xbd0, 0x7fff_ffff_ffff_f3e8];
+    let candidates: [u64; 8] = [0x3e8, 0x7e8, 0x10, 0x1_0000_03e8, 0xbd0, 0x7fff_ffff_ffff_f3e8, 0xffff_ffff_0000_07e0, 0x8000_0000_0000_03e8];
     let nz = rng.range(2, 3) as usize;
     let mut zones: Vec<(u64, u64)> = Vec::new();
     let mut cand: Vec<u64> = candidates.to_vec();
